@@ -512,3 +512,17 @@ M2('c06-wsgi-decode-path-helper-also-fed-a-header', 'C06', 'R2', [
      'new': "            path = helpers._decode_path(path)\n        self._ua = helpers._decode_path(env.get('HTTP_USER_AGENT', ''))\n"},
     {'file': 'falcon/request_helpers.py', 'old': "def _header_property(wsgi_name: str) -> Any:",
      'new': "def _decode_path(path: str) -> str:\n    return path.encode('iso-8859-1').decode('utf-8', 'replace')\n\n\ndef _header_property(wsgi_name: str) -> Any:"}], also=('C04', 'C16', 'C19'))
+# k2-c12-2 (the whole `_media_rendered is _UNSET` block of Response.render_body moved into self._render_media()) -- and the helper
+# no longer writes the default media type to content_type
+_RB_BLOCK = ("                # NOTE(kgriffs): We use a special _UNSET singleton since\n                #   None is ambiguous (the media handler might return None).\n"
+             "                if self._media_rendered is _UNSET:\n                    if not self.content_type:\n                        self.content_type = self.options.default_media_type\n\n"
+             "                    handler, _, _ = self.options.media_handlers._resolve(\n                        self.content_type, self.options.default_media_type\n                    )\n\n"
+             "                    self._media_rendered = handler.serialize(\n                        self._media, self.content_type\n                    )\n\n"
+             "                data = self._media_rendered\n")
+M2('c06-render-media-helper-drops-content-type-store', 'C06', 'R7', [
+    {'file': 'falcon/response.py', 'old': _RB_BLOCK, 'new': "                data = self._render_media()\n"},
+    {'file': 'falcon/response.py', 'old': "    def __repr__(self) -> str:\n        return f'<{self.__class__.__name__}: {self.status}>'\n",
+     'new': "    def _render_media(self) -> bytes:\n        if self._media_rendered is _UNSET:\n            media_type = self.content_type or self.options.default_media_type\n"
+            "            handler, _, _ = self.options.media_handlers._resolve(media_type, self.options.default_media_type)\n"
+            "            self._media_rendered = handler.serialize(self._media, media_type)\n\n        return self._media_rendered\n\n"
+            "    def __repr__(self) -> str:\n        return f'<{self.__class__.__name__}: {self.status}>'\n"}], also=('C05', 'C12', 'C11'))
